@@ -453,8 +453,12 @@ impl<K: StructuralWritable, V: StructuralWritable> Encoder<MapOperation<K, V>>
 #[derive(Debug, Default, Clone, Copy)]
 struct MessageEncoder<Inner>(Inner);
 
+/// Wraps a map operation decoder, adding the `Take` and `Drop` frames. The flag records that the
+/// inner decoder has consumed part of a frame (it is resumable and may have read the header and
+/// some of the body); until it completes that frame, the front of the buffer is not a frame
+/// header and must be passed straight to it.
 #[derive(Debug, Default, Clone, Copy)]
-struct MessageDecoder<Inner>(Inner);
+struct MessageDecoder<Inner>(Inner, bool);
 
 impl<K, V, Inner> Encoder<MapMessage<K, V>> for MessageEncoder<Inner>
 where
@@ -497,7 +501,14 @@ where
     type Error = FrameIoError;
 
     fn decode(&mut self, src: &mut BytesMut) -> Result<Option<Self::Item>, Self::Error> {
-        let MessageDecoder(inner) = self;
+        let MessageDecoder(inner, in_frame) = self;
+        if *in_frame {
+            let result = inner.decode(src);
+            if !matches!(result, Ok(None)) {
+                *in_frame = false;
+            }
+            return Ok(result?.map(Into::into));
+        }
         if src.remaining() < TAG_SIZE + LEN_SIZE {
             src.reserve(TAG_SIZE + LEN_SIZE);
             return Ok(None);
@@ -525,7 +536,11 @@ where
                 }))
             }
             _ => {
+                let before = src.remaining();
                 let result = inner.decode(src)?;
+                if result.is_none() && src.remaining() < before {
+                    *in_frame = true;
+                }
                 Ok(result.map(Into::into))
             }
         }
